@@ -47,7 +47,14 @@ if not hasattr(D, "async_execute"):
 
 
 ENTER_TIMEOUT = float(os.environ.get("VERIF_ENTER_TIMEOUT", "2.0"))
-RUN_TIMEOUT = float(os.environ.get("VERIF_RUN_TIMEOUT", "15.0"))
+RUN_TIMEOUT = float(os.environ.get("VERIF_RUN_TIMEOUT", "8.0"))
+
+
+MAX_EVENTS = int(os.environ.get("VERIF_MAX_EVENTS", "6000"))
+
+
+class RunawayScheduler(BaseException):
+    """raised inside the scheduler thread when one execution produced an absurd number of events (a spin)."""
 
 
 class NodeBoom(Exception):
@@ -66,6 +73,7 @@ class Ctl:
         self.lock = threading.Lock()
         self.gates = {}
         self.entered = set()
+        self.entered_ever = set()
         self.sched_thread = None
         self.fails = set(fails)
         self.rng = rng
@@ -78,13 +86,22 @@ class Ctl:
         self.n_submit_t = 0
         self.n_async_started = 0
         self.n_xenter_worker = 0
+        self.n_xenter_thread = 0
         self.n_xexit_worker = 0
         self.thread_ids = set()
         self.broken = None
+        self.runaway = False
+        self.removed = set()
+        self.submitted_c = set()
 
     def ev(self, *e):
         with self.lock:
             self.trace.append(e)
+            n = len(self.trace)
+        if n > MAX_EVENTS and not self.runaway and self.on_sched():
+            self.runaway = True
+            self.give_up("scheduler loop produced more than %d events without finishing (spin)" % MAX_EVENTS)
+            raise RunawayScheduler()
 
     def give_up(self, why):
         """the controller cannot drive this run: stop gating so that it ends quickly"""
@@ -95,9 +112,16 @@ class Ctl:
             g.set()
 
     def quiet(self):
+        """nothing of this execution is running or still to start.  Thread work items always start;
+        an async-thread work item whose task was cancelled during loop teardown may never start, so
+        for those only a grace period can be observed (see run_controlled)."""
         with self.lock:
             return (self.inside == 0 and self.n_xenter_worker == self.n_xexit_worker
-                    and self.n_xenter_worker == self.n_submit_t + self.n_async_started)
+                    and self.n_xenter_thread == self.n_submit_t)
+
+    def async_pending(self):
+        with self.lock:
+            return self.n_async_started - (self.n_xenter_worker - self.n_xenter_thread)
 
     def on_sched(self):
         return threading.get_ident() == self.sched_thread
@@ -118,10 +142,19 @@ class Ctl:
 
 
 CUR = [None]  # the Ctl of the execution in progress (one at a time per harness process)
+TL = threading.local()  # .ctl: the Ctl of the execution whose node is running on this thread
 
 
 def cur():
-    return CUR[0]
+    return getattr(TL, "ctl", None) or CUR[0]
+
+
+from tawazi._helpers import StrictDict  # noqa: E402
+
+
+class TaggedResults(StrictDict):
+    """the results dict of ONE execution, carrying its controller: a worker that starts late (after its
+    execution ended) is attributed to its own execution, never to the next one."""
 
 
 def mknode(name, ret, **kw):
@@ -142,6 +175,7 @@ def mknode(name, ret, **kw):
                 with ctl.lock:
                     g = ctl.gates.setdefault(name, threading.Event())
                     ctl.entered.add(name)
+                    ctl.entered_ever.add(name)
                 g.wait(30)
             ctl.ev("EXIT", name, inline)
             if name in ctl.fails:
@@ -166,11 +200,12 @@ if not MISSING:
     orig_execute = N.ExecNode.execute
     OrigTPE = H.ThreadPoolExecutor
 
-    def remove_root_node(self, n):
+    def remove_root_node(self, *ns, **kw):
         ctl = cur()
         if ctl is not None and ctl.on_sched():
-            ctl.ev("REMOVE", n)
-        return orig_remove(self, n)
+            for n in ns:
+                ctl.ev("REMOVE", n)
+        return orig_remove(self, *ns, **kw)
 
     DiGraphEx.remove_root_node = remove_root_node
 
@@ -247,6 +282,7 @@ if not MISSING:
                 ctl.ev("SUBMIT", "C", fn.__self__.id)
                 with ctl.lock:
                     ctl.n_submit_t += 1
+                    ctl.submitted_c.add(fn.__self__.id)
             return super().submit(fn, *a, **k)
 
     H.ThreadPoolExecutor = TPE
@@ -267,9 +303,9 @@ if not MISSING:
 
     H.to_thread_in_executor = tt
 
-    def act(xn_, results):
+    def act(xn_, results, *a, **kw):
         ctl = cur()
-        r = orig_act(xn_, results)
+        r = orig_act(xn_, results, *a, **kw)
         if ctl is not None:
             ctl.ev("ACTIVE", xn_.id, bool(r))
         return r
@@ -277,9 +313,16 @@ if not MISSING:
     H._xn_active_in_call = act
 
     def execute(self, results, profiles):
-        ctl = cur()
+        ctl = getattr(results, "_verif_ctl", None) or CUR[0]
         if ctl is None:
             return orig_execute(self, results, profiles)
+        TL.ctl = ctl
+        try:
+            return _execute(self, results, profiles, ctl)
+        finally:
+            TL.ctl = None
+
+    def _execute(self, results, profiles, ctl):
         inline = ctl.on_sched()
         seen = []
         for u in list(self.args) + [u for k, u in self.kwargs.items() if k not in ("twz_tag", "twz_active", "twz_unpack_to")]:
@@ -287,10 +330,20 @@ if not MISSING:
                 seen.append(u.result(results))
             except BaseException as e:  # noqa: BLE001
                 seen.append(("<raises>", type(e).__name__))
+        if inline and not ctl.free_run:
+            t0 = time.time()
+            while time.time() - t0 < 0.5:
+                with ctl.lock:
+                    pending = [x for x in ctl.submitted_c if x not in ctl.entered_ever]
+                if not pending:
+                    break
+                time.sleep(0.0002)
         ctl.ev("XENTER", self.id, inline, seen)
         if not inline:
             with ctl.lock:
                 ctl.n_xenter_worker += 1
+                if self.resource == Resource.thread:
+                    ctl.n_xenter_thread += 1
         try:
             r = orig_execute(self, results, profiles)
             ctl.ev("XEXIT", self.id, inline, True, r)
@@ -330,6 +383,9 @@ if not MISSING:
             missing_xn=[i for i in nodes if i not in xns],
         )
         ctl.cfgs.append(cfg)
+        tagged = TaggedResults(res)
+        tagged._verif_ctl = ctl
+        kw = dict(kw, results=tagged)
         ctl.ev("BEGIN", len(ctl.cfgs) - 1)
         try:
             r = await orig_exec(**kw)
@@ -388,9 +444,17 @@ def run_controlled(thunk, ctl, is_async=False):
             g.set()
         ctl.free_run = True
         t0 = time.time()
+        stable_since = None
         while time.time() - t0 < 5:
             if ctl.quiet():
-                break
+                if ctl.async_pending() <= 0:
+                    break
+                # an async work item cancelled at loop teardown never starts: accept after a grace period
+                stable_since = stable_since or time.time()
+                if time.time() - stable_since > 0.03:
+                    break
+            else:
+                stable_since = None
             time.sleep(0.0005)
         time.sleep(0.001)
         if not ctl.quiet() and ctl.broken is None:
